@@ -29,10 +29,10 @@ TRUSTED = [
 	'b"%d" formatting and int() of ASCII digits (natToDec/decNat, validated by T2); CPython\'s 4300-digit int() limit is modelled',
 ]
 ASSUMPTIONS = ['HTTP/1.2-style requests (same major, higher minor) are answered 505 by the code (pinned by tests/api/test_statemachine.py::test_max_protocol); the oracle accepts either 505 or a 1.1 answer there']
-RULE = ('exhaustive: status codes 0-999 x 6 phrases, versions [0,3]x[0,11] (parse/compose, all ordered pairs for comparison, negotiation), methods of length <= 2 over the accepted alphabet (+ length 3 sampled), '
+RULE = ('exhaustive: status codes 0-999 x 8 phrases (words, hyphen, apostrophe, empty, 8-bit), versions [0,3]x[0,11] (parse/compose, all ordered pairs for comparison, negotiation), methods of length <= 2 over the accepted alphabet (+ length 3 sampled), '
 	'single-octet corruptions (256 values x every position) of two valid start lines; random longer methods; non-trivial = accepted and round-tripped; distinct by canonical output')
 
-PHRASES = [b'OK', b'Not Found', b'I am a teapot', b'x', b'A_b 9', b'']
+PHRASES = [b'OK', b'Not Found', b"I'm a teapot", b'Non-Authoritative Information', b'x', b'A_b 9', b'', b'caf\xe9']
 ALPHA = b'ABCXYZabcxyz0189-_.$'
 
 
@@ -303,6 +303,6 @@ def finding_still_fails(k):
 
 LEVEL_TEXT = ('Theorems for ALL inputs: decimal print/parse inverse (natToDec_spec), version compose/parse round trip and rejection of ill-formed versions, the (major, minor) order is a strict total order '
 	'with <=, >= its closures, the server answers 505 exactly above 1.1 and otherwise the lower version, methods over the stated alphabet (1-20) are accepted verbatim and any whitespace/control/8-bit octet rejects, '
-	'every code 100-599 with a phrase of words round-trips, wrong field counts reject. The recognisers are tied to the source regexes by pattern-text equality and 256-entry class tables re-proved each run, '
+	'every code 100-599 with a phrase of visible ASCII round-trips, wrong field counts reject. The recognisers are tied to the source regexes by pattern-text equality and 256-entry class tables re-proved each run, '
 	'and by exhaustive correspondence over the finite spaces the property names.')
 LEVEL_NOTE = 'Trusted: Lean kernel; Python re for the pinned pattern texts; tuple comparison/min; extract.py/correspondence. Comparison against tuple/text operands goes through Protocol(other) and is covered by the oracle (exhaustive), not by a separate theorem.'
